@@ -15,9 +15,11 @@ namespace Asynkit.C20
 open Asynkit.CoroState
 
 /-- **The helpers are exact on the whole table.**  For every kind and every interpreter state
-    (all 3 × 5 × 2 of them — also the ones with a stale `ag_running`, e.g. an abandoned `asend()`
+    (all 3 × 7 × 2 of them — also the ones with a stale `ag_running`, e.g. an abandoned `asend()`
     awaitable, or a body entered through `asend().throw()` with `ag_running` clear) exactly one
-    of new / suspended / finished / executing holds, and it is the one the phase denotes. -/
+    of new / suspended / finished / executing holds, and it is the one the phase denotes.
+    `closingInner` (executing `close()`/`throw(GeneratorExit)`: the frame is marked executing but
+    not linked to a caller) and `throwingInner` count as executing. -/
 theorem helpers_exact (k : Kind) (s : St) : verdict k (expose k s) = truth s.phase := by
   obtain ⟨ph, f⟩ := s
   cases k <;> cases ph <;> cases f <;> rfl
@@ -29,7 +31,7 @@ theorem helpers_exact_each (k : Kind) (s : St) :
     isSuspended k (expose k s) = s.phase.isSusp ∧
     isFinished k (expose k s) = (s.phase == .closed) ∧
     ((isNew k (expose k s) || isSuspended k (expose k s) || isFinished k (expose k s)) = false ↔
-      s.phase = .running) := by
+      (s.phase = .running ∨ s.phase = .closingInner ∨ s.phase = .throwingInner)) := by
   obtain ⟨ph, f⟩ := s
   cases k <;> cases ph <;> cases f <;> decide
 
@@ -37,11 +39,15 @@ theorem helpers_exact_each (k : Kind) (s : St) :
     resumes the body — then the object is `running` while the body runs (that is the state an
     observation from inside the body, or from a callee of it, sees), it rests afterwards where the
     body's own response says (await → suspAwait, yield → suspYield, exit → closed), and it was
-    neither finished nor already running — or it leaves the phase alone, except that a
+    neither finished nor already running; the clean-up code of a callee it was delegating to sees
+    it `running`, `throwingInner` or `closingInner` meanwhile — or it leaves the phase alone, except that a
     never-started object is closed by a delivered throw / close / athrow / aclose. -/
 theorem reachable_phases (k : Kind) (d : DSt) (op : Op) (r : Resp) :
     ((deliver k d op r).resumed = true →
-        (deliver k d op r).mid.phase = .running ∧ (deliver k d op r).after.st.phase = respPhase k r ∧
+        (deliver k d op r).mid.phase = .running ∧
+        ((deliver k d op r).midCleanup.phase = .running ∨ (deliver k d op r).midCleanup.phase = .closingInner ∨
+          (deliver k d op r).midCleanup.phase = .throwingInner) ∧
+        (deliver k d op r).after.st.phase = respPhase k r ∧
         d.st.phase ≠ .closed ∧ d.st.phase ≠ .running) ∧
     ((deliver k d op r).resumed = false →
         (deliver k d op r).after.st.phase = d.st.phase ∨
@@ -58,7 +64,7 @@ theorem helpers_track_history (k : Kind) (h : List (Op × Resp)) :
     isNew k (expose k d.st) = (!ran && d.st.phase != .closed) ∧
     isSuspended k (expose k d.st) = (ran && d.st.phase != .closed) ∧
     isFinished k (expose k d.st) = (d.st.phase == .closed) ∧
-    d.st.phase ≠ .running := by
+    Between d.st.phase := by
   intro d ran
   have hi : Inv d (false || ran) := inv_hist k h initial false inv_initial
   simp only [Bool.false_or] at hi
@@ -66,16 +72,21 @@ theorem helpers_track_history (k : Kind) (h : List (Op × Resp)) :
   obtain ⟨e1, e2, e3, _⟩ := helpers_exact_each k d.st
   refine ⟨?_, ?_, e3, h1⟩
   · rw [e1]
-    cases hp : d.st.phase <;> cases hr : ran <;> simp_all
+    cases hp : d.st.phase <;> cases hr : ran <;> simp_all [Between]
   · rw [e2]
-    cases hp : d.st.phase <;> cases hr : ran <;> simp_all [Phase.isSusp]
+    cases hp : d.st.phase <;> cases hr : ran <;> simp_all [Phase.isSusp, Between]
 
-/-- … and while an operation of that history runs the body, none of the three helpers holds. -/
+/-- … and while an operation of that history runs the body, none of the three helpers holds —
+    neither seen from the body or a callee (`mid`) nor from the clean-up code of a callee while
+    the operation is being delivered to it first (`midCleanup`). -/
 theorem helpers_while_running (k : Kind) (d : DSt) (op : Op) (r : Resp)
     (hr : (deliver k d op r).resumed = true) :
-    verdict k (expose k (deliver k d op r).mid) = .executing := by
-  rw [helpers_exact, (deliver_ok k d op r).1 hr |>.1]
-  rfl
+    verdict k (expose k (deliver k d op r).mid) = .executing ∧
+    verdict k (expose k (deliver k d op r).midCleanup) = .executing := by
+  obtain ⟨h1, h2, _⟩ := (deliver_ok k d op r).1 hr
+  rw [helpers_exact, helpers_exact, h1]
+  refine ⟨rfl, ?_⟩
+  rcases h2 with h | h | h <;> rw [h] <;> rfl
 
 /-- Reachable states have the shape the table assumes for their kind: only async generators carry
     `ag_running` / awaitables, a coroutine never rests at a `yield`, a created object never has
@@ -94,6 +105,19 @@ example : (runHist .asyncGen initial [(.newAw .asend, .exit), (.awSend, .await),
 -- `helpers_while_running`: its hypothesis holds for a real step
 example : (deliver .asyncGen { st := ⟨.suspYield, false⟩, aw := some ⟨.asend, .init⟩ } .awThrow .yield).resumed = true := by
   decide
+
+-- close() arriving while the object delegates: the callee's clean-up sees `closingInner`
+example : (deliver .asyncGen { st := ⟨.suspAwait, true⟩, aw := some ⟨.asend, .iter⟩ } .awThrowX .exit).midCleanup
+    = ⟨.closingInner, true⟩ := by decide
+example : (deliver .coroutine { st := ⟨.suspAwait, false⟩ } .close .exit).midCleanup = ⟨.closingInner, false⟩ := by
+  decide
+
+/-- The first version of the async-generator fix (2f3fb0e, `f_back` decides) reported an async
+    generator that is closing the awaitable it delegates to as suspended (found by the check after
+    clean-up observations were added; repaired by fixes/C20-asyncgen-delegated-close.patch). -/
+theorem first_fix_closing_reported_suspended :
+    agenFrameStateOld (expose .asyncGen ⟨.closingInner, true⟩) = .suspended ∧
+    agenFrameState (expose .asyncGen ⟨.closingInner, true⟩) = .running := by decide
 
 /-- Before the fix an async generator paused at a `yield` was reported new, not suspended … -/
 theorem original_yield_reported_new :
